@@ -489,13 +489,15 @@ def extract(repo):
         counts["per_file"][rel] = len(fw.templates)
         templates += fw.templates
         fmts += fw.format_idents
+    exports = extract_exports(repo)
+    counts["exports"] = len(exports)
     counts["templates"] = len(templates)
     counts["format_idents"] = len(fmts)
     counts["tokens"] = sum(count_tokens(t["tokens"]) for t in templates)
     if counts["templates"] != counts["openers_lexer"] - counts["openers_in_cfg_test"]:
         raise TranslateError("template count %d != openers %d - openers in cfg(test) %d" % (
             counts["templates"], counts["openers_lexer"], counts["openers_in_cfg_test"]))
-    return {"templates": templates, "format_idents": fmts, "counts": counts}
+    return {"templates": templates, "format_idents": fmts, "counts": counts, "exports": exports}
 
 
 def count_tokens(tt):
@@ -507,6 +509,85 @@ def count_tokens(tt):
         elif x[0] == "group":
             n += count_tokens(x[2])
     return n
+
+
+# ------------------------------------------------------------------ what src/lib.rs exports (the items behind `derive_more::..`)
+
+def _use_names(toks):
+    """tokens of a `use` tree after `pub use` -> exported last-segment names (globs give nothing)"""
+    names = []
+    i = 0
+    last = None
+    while i < len(toks):
+        t = toks[i]
+        if t.kind == "id":
+            if t.text == "as" and i + 1 < len(toks) and toks[i + 1].kind == "id":
+                last = toks[i + 1].text
+                i += 2
+                continue
+            last = t.text
+        elif t.kind == "group" and t.text == "{":
+            # split the group at top-level commas
+            part = []
+            for x in t.sub + [Tok("punct", ",", t.line)]:
+                if x.kind == "punct" and x.text == ",":
+                    if part:
+                        names += _use_names(part)
+                    part = []
+                else:
+                    part.append(x)
+            last = None
+        elif t.kind == "punct" and t.text == "*":
+            last = None
+        i += 1
+    if last is not None and last not in ("self", "_"):
+        names.append(last[2:] if last.startswith("r#") else last)
+    return names
+
+
+def _walk_exports(toks, prefix, out, fname):
+    i = 0
+    n = len(toks)
+    while i < n:
+        t = toks[i]
+        if t.kind == "id" and t.text == "pub" and i + 1 < n:
+            nx = toks[i + 1]
+            if nx.kind == "group" and nx.text == "(":      # pub(crate) ..: not exported
+                i += 2
+                continue
+            if nx.kind == "id" and nx.text == "use":
+                j = i + 2
+                while j < n and not (toks[j].kind == "punct" and toks[j].text == ";"):
+                    j += 1
+                if j >= n:
+                    raise TranslateError("%s:%d: `pub use` without `;`" % (fname, t.line))
+                for nm in _use_names(toks[i + 2:j]):
+                    out.append(prefix + [nm])
+                i = j + 1
+                continue
+            if nx.kind == "id" and nx.text == "mod" and i + 3 < n and toks[i + 2].kind == "id" \
+                    and toks[i + 3].kind == "group" and toks[i + 3].text == "{":
+                name = toks[i + 2].text
+                out.append(prefix + [name])
+                _walk_exports(toks[i + 3].sub, prefix + [name], out, fname)
+                i += 4
+                continue
+        i += 1
+
+
+def extract_exports(repo):
+    """public items of the derive_more crate root / `__private` / `with_trait` that expansions can name"""
+    f = os.path.join(repo, "src", "lib.rs")
+    toks = tree(lex(open(f, encoding="utf-8").read(), "src/lib.rs"), "src/lib.rs")
+    out = []
+    _walk_exports(toks, [], out, "src/lib.rs")
+    uniq = []
+    for p in out:
+        if p not in uniq:
+            uniq.append(p)
+    if ["core"] not in uniq or ["__private"] not in uniq:
+        raise TranslateError("src/lib.rs: `pub use core` / `pub mod __private` not found (unknown layout)")
+    return uniq
 
 
 # ------------------------------------------------------------------ Coq output
@@ -571,6 +652,10 @@ def render_coq(ex):
     lines.append("(* string arguments of format_ident! / Ident::new / Lifetime::new: (file, line, text) *)")
     lines.append("Definition format_idents : list (string * nat * string) := [%s]." % "; ".join(
         "(%s, %d, %s)" % (coq_string(f["file"]), f["line"], coq_string(f["fmt"])) for f in ex["format_idents"]))
+    lines.append("")
+    lines.append("(* items exported by /repo/src/lib.rs (crate root, __private, with_trait, derive): paths below `derive_more::` *)")
+    lines.append("Definition dm_exports : list (list string) := [%s]." % "; ".join(
+        "[" + "; ".join(coq_string(x) for x in p) + "]" for p in ex["exports"]))
     lines.append("")
     c = ex["counts"]
     lines.append("Definition n_templates : nat := %d." % c["templates"])
